@@ -78,8 +78,9 @@ Complete == ~HasHole(t)
 
 GeneratorIsWellTyped == (Complete /\ root # "IllTyped") => TypeOf(t) = root
 IllTypedMustBeRejected == (Complete /\ root = "IllTyped") => MustReject(t)
-\* a named deviation: SQLite's LENGTH applies to a value of any type and that dialect performs no check for it
-NoTypeCheck == { <<"sqlite", "length">> }
+\* named deviations: where a backend performs no type check at all for a function there is nothing that could reject.
+\* SQLite's LENGTH applies to a value of any type; the ORM backends check contains / startswith / endswith only.
+NoTypeCheck == { <<"sqlite", "length">> } \cup { <<bk, fn>> : bk \in {"django", "sa-orm", "sa-core"}, fn \in {"indexof", "length", "substring"} }
 Export == PrintT(ToJson(IF Complete THEN [k |-> "case", tree |-> t, type |-> root, nops |-> n,
                                           exempt |-> IF root = "IllTyped" THEN { e[1] : e \in { x \in NoTypeCheck : x[2] = t[2][3] } } ELSE {}] ELSE [k |-> "partial"]))
 =============================================================================
